@@ -206,6 +206,17 @@ def run(ctx):
                 ctx.inst('R12.1', f, '%s inserts into %s on lookup' % (repo.norm(n), gname(k)), True,
                          'implicit insert, but no key-sensitive reader of %s on the path (inserted value equals what a later miss computes)' % gname(k), n)
 
+    # ---- R12.1 (cont.) `global X` rebinding of module names that are not containers (lazily built singletons, caches, counters)
+    for f, n, k, kind in writes:
+        if kind != 'rebind' or k in G:
+            continue
+        on = f in on_path and f not in config_api
+        p = cg.path(roots, f) if on else None
+        ctx.inst('R12.1', f, '%s -> %s [global rebinding]' % (repo.norm(n)[:140], gname(k)), not on,
+                 'module-level name rebound only outside the diff/merge/request path' if not on else
+                 'module-level %s is (re)bound on the path %s: what is stored by the first call (e.g. a snapshot of the configuration then in force) '
+                 'is what every later call in the process sees' % (gname(k), ' -> '.join(p) if p else '?'), n, extra={'path': p} if p else None)
+
     # ---- R12.2 function-attribute flags
     flags = {}
     for m in repo.modules.values():
